@@ -1,6 +1,7 @@
 """C19 — auto-started services get held messages once, in order, or callers get errors; the activation
 helper executes only for a valid name whose service file declares that name, an Exec and a User."""
 import json, os, random, sys, time
+sys.path.insert(0, os.path.dirname(os.path.dirname(os.path.abspath(__file__))))
 import vlib
 sys.path.insert(0, os.path.join(vlib.VERIF, "harness", "py"))
 import activation_check as ac
@@ -21,7 +22,7 @@ FLAVOURS = ["plain"] * 6 + ["limit", "limit", "timed", "uniq"]
 
 def bus_cases(tier, rnd):
     cases = list(ag.scenarios()) + list(ag.uniq_scenarios()) + load_corpus()
-    n = 150 if tier == "quick" else 4000
+    n = 220 if tier == "quick" else 4000
     for i in range(n):
         fl = rnd.choice(FLAVOURS)
         cases.append(("gen%d-%s" % (i, fl),) + ag.gen_history(rnd, fl))
@@ -207,7 +208,7 @@ def run_helper_part(ctx, rnd):
     if not os.path.exists(helper_exe):
         rep.violation("dbus-daemon-launch-helper-for-tests was not built", {"names": "build"}, found_input=False)
         return 0, 0, {}, []
-    n = 2500 if tier == "quick" else 80000
+    n = 3500 if tier == "quick" else 80000
     stub = b"@STUB@"
     cases = []
     fixed_file = af.SEC + b"\nName=%s\nExec=@STUB@ a 'b c'\nUser=root\n"
